@@ -434,3 +434,43 @@ mod test {
         assert!(!prog.diverging);
     }
 }
+
+/// Verification hook: read-only view of the warmup schedule's own counters.
+#[cfg(nuts_rs_verif)]
+#[derive(Debug, Clone, PartialEq, Eq, Hash, PartialOrd, Ord)]
+pub struct VerifScheduleState {
+    pub num_tune: u64,
+    pub early_end: u64,
+    pub final_step_size_window: u64,
+    pub tuning: bool,
+    pub has_initial_mass_matrix: bool,
+    pub last_update: u64,
+    pub current_window_size: u64,
+    pub foreground_count: u64,
+    pub background_count: u64,
+}
+
+#[cfg(nuts_rs_verif)]
+impl<M: Math, A: MassMatrixAdaptStrategy<M>> GlobalStrategy<M, A> {
+    pub fn verif_schedule_state(&self) -> VerifScheduleState {
+        VerifScheduleState {
+            num_tune: self.num_tune,
+            early_end: self.early_end,
+            final_step_size_window: self.final_step_size_window,
+            tuning: self.tuning,
+            has_initial_mass_matrix: self.has_initial_mass_matrix,
+            last_update: self.last_update,
+            current_window_size: self.current_window_size,
+            foreground_count: self.mass_matrix_adapt.current_count(),
+            background_count: self.mass_matrix_adapt.background_count(),
+        }
+    }
+
+    pub fn verif_step_size_strategy(&self) -> &StepSizeStrategy {
+        &self.step_size
+    }
+
+    pub fn verif_mass_matrix_adapt(&self) -> &A {
+        &self.mass_matrix_adapt
+    }
+}
